@@ -581,6 +581,75 @@ def run_case(seed):
         shutil.rmtree(tmp, ignore_errors=True)
 
 
+def merge_worker(items, extra, progress):
+    """the real sapi.merge_data on random JSON values (answers of a continued query: nested dictionaries and lists, scalars of
+    two types, clashing kinds now and then) vs Model.merge."""
+    import copy
+    import logging
+
+    from . import build_repo
+
+    build_repo.overlay_all()
+    logging.disable(logging.WARNING)
+    from mwlib.network import sapi
+
+    from .common import Driver
+
+    def gen(rng, depth):
+        k = rng.random()
+        if depth <= 0 or k < 0.25:
+            return rng.choice([rng.randrange(5), "s%d" % rng.randrange(5)])
+        if k < 0.55:
+            return [gen(rng, depth - 1) for _ in range(rng.randint(0, 3))]
+        return {"k%d" % key: gen(rng, depth - 1) for key in rng.sample(range(6), rng.randint(0, 4))}
+
+    def second(rng, a, depth):
+        """mostly the same shape as `a` (the next answer of the same query), sometimes another kind."""
+        if rng.random() < 0.08:
+            return gen(rng, depth)
+        if isinstance(a, dict):
+            out = {}
+            for key in rng.sample(range(6), rng.randint(0, 4)):
+                name = "k%d" % key
+                out[name] = second(rng, a[name], depth - 1) if name in a else gen(rng, depth - 1)
+            return out
+        if isinstance(a, list):
+            return [gen(rng, depth - 1) for _ in range(rng.randint(0, 3))]
+        return rng.choice([rng.randrange(5), "s%d" % rng.randrange(5)]) if rng.random() < 0.3 else (a if rng.random() < 0.5 else type(a)(a) if not isinstance(a, str) else "s9")
+
+    def enc(j):
+        if isinstance(j, dict):
+            return "{ " + "".join("%s %s " % (k, enc(v)) for k, v in j.items()) + "}"
+        if isinstance(j, list):
+            return "[ " + "".join(enc(v) + " " for v in j) + "]"
+        if isinstance(j, str):
+            return "s1.%d" % int(j[1:])
+        return "s0.%d" % j
+
+    reqs, meta, hist = [], [], Counter()
+    for i, seed in enumerate(items):
+        progress(i)
+        rng = random.Random(seed)
+        a = {"k0": gen(rng, 3)} if rng.random() < 0.5 else gen(rng, 3)
+        b = second(rng, a, 3)
+        reqs.append("merge %s;%s" % (enc(a), enc(b)))
+        dst = copy.deepcopy(a)
+        try:
+            sapi.merge_data(dst, copy.deepcopy(b))
+            real = enc(dst)
+        except ValueError:
+            real = "error"
+        hist["merges"] += 1
+        hist["merge-errors"] += real == "error"
+        meta.append((a, b, real))
+    progress(len(items))
+    diffs = []
+    for (a, b, real), o in zip(meta, Driver("merge").ask(reqs)):
+        if real.split() != o.split():
+            diffs.append({"stream": "merge_data", "dst": a, "src": b, "impl": real, "model": o})
+    return diffs, [], dict(hist)
+
+
 _API = {}
 
 
@@ -675,6 +744,12 @@ def run(chk: common.Check):
     chk.proof_coverage(res, trusted)
     n = 3000 if tier == "thorough" else 300
     items = [chk.seed * 10_000_000 + 1_000_000 + i for i in range(n)]
+    mitems = [chk.seed * 10_000_000 + 1_500_000 + k for k in range(60000 if tier == "thorough" else 8000)]
+    mr, mc = guard.guarded_run(str(chk.mkscratch()), "harness.c11:merge_worker", mitems, nproc=8, hard_timeout=120)
+    mdiffs, mhist = [], Counter()
+    for d_, _, h_ in mr:
+        mdiffs += d_
+        mhist.update(h_)
     r, c = guard.guarded_run(str(chk.mkscratch()), "harness.c11:worker", items, nproc=16, hard_timeout=180, min_shard=8,
                              stop_when=lambda r, c: len(c) >= 2 or sum(len(x[0]) for x in r) >= 8)
     bad, diffs, hist = [], [], Counter()
@@ -694,7 +769,8 @@ def run(chk: common.Check):
                 "from {1,2,3,5,10,50} with continuation; with and without the no-images option; random response latencies (seeded). "
                 "non-trivial = collections fetched",
         "traces_validated_against_impl": hist.get("collections", 0) - len({b['seed'] for b in bad}),
-        "correspondence_differences": len(diffs),
+        "correspondence_differences": len(diffs) + len(mdiffs),
+        "merge_data_histogram": dict(mhist),
         "histogram": dict(hist),
     })
     seen = set()
@@ -712,6 +788,8 @@ def run(chk: common.Check):
                        "log_tail": res.log[-1500:]})
     if diffs:
         broken.append({"kind": "correspondence", "count": len(diffs), "first": diffs[0]})
+    if mdiffs:
+        broken.append({"kind": "correspondence(merge_data)", "count": len(mdiffs), "first": mdiffs[0]})
     if broken:
         chk.violation("C11 is no longer shown to hold: " + ", ".join(b["kind"] for b in broken)
                       + " broke; the closure oracle found no incomplete archive",
